@@ -225,16 +225,18 @@ fn frag_random(ctx: &mut Ctx, name: &str, clause: &str, n: u64, maxlen: u64, wei
 }
 
 fn refill_cases(ctx: &mut Ctx, name: &str, clause: &str, maxwords: u32, check: impl Fn(&RefillCase) -> Outcome + Sync) {
-    let indents: &[(&'static str, &'static str)] = &[("", ""), ("> ", "> "), ("* ", "  "), ("- ", "    "), ("#", "")];
+    let indents: &[(&'static str, &'static str)] = &[("", ""), ("> ", "> "), ("* ", "  "), ("- ", "    "), ("#", ""), ("+ ", "+ "), ("// ", "/+*#"), (" ", "> - ")];
     let widths = [1usize, 3, 5, 8, 12];
     let ns = count_strings(VOCAB.len() as u64, maxwords) - 1;
-    let n = ns * indents.len() as u64 * 25 * 2 * 2 * 2 * (if cfg!(feature = "full") { 2 } else { 1 });
-    let scope = format!("[{}] every paragraph of 1..={} words from {:?} x indent pairs {:?} x widths {:?} (both) x algorithms x LF/CRLF (both) x trailing ending", FLAVOR, maxwords, VOCAB, indents, widths);
+    let n = ns * indents.len() as u64 * 25 * 2 * 2 * 2 * 2 * (if cfg!(feature = "full") { 2 } else { 1 });
+    let scope = format!("[{}] every paragraph of 1..={} words from {:?} x indent pairs {:?} x widths {:?} (both) x algorithms x break_words off / on-without-forced-breaks x LF/CRLF (both) x trailing ending", FLAVOR, maxwords, VOCAB, indents, widths);
     let r = run_indexed(name, clause, &scope, n, true,
         |mut i| {
             let na = if cfg!(feature = "full") { 2 } else { 1 };
             let algo = if i % na == 1 { Algo::OptimalFit } else { Algo::FirstFit };
             i /= na;
+            let bw = i % 2 == 1;
+            i /= 2;
             let trailing = i % 2 == 1;
             i /= 2;
             let crlf2 = i % 2 == 1;
@@ -264,7 +266,14 @@ fn refill_cases(ctx: &mut Ctx, name: &str, clause: &str, maxwords: u32, check: i
                 words.push(VOCAB[(idx % k) as usize]);
                 idx /= k;
             }
-            let o = Opts { width: w1, algo, sep: Sep::Ascii, spl: Spl::None, break_words: false, initial: ind.0, subsequent: ind.1, crlf };
+            let o = Opts { width: w1, algo, sep: Sep::Ascii, spl: Spl::None, break_words: bw, initial: ind.0, subsequent: ind.1, crlf };
+            if bw {
+                // "breaks at spaces only": with break_words on, keep the cases in which no word is force-broken (at either width)
+                let lim = std::cmp::min(w1, w2).saturating_sub(dw(ind.1));
+                if words.iter().any(|w| dw(w) > lim) {
+                    return None;
+                }
+            }
             Some(RefillCase { words, opts: o, width2: w2, crlf2, trailing })
         },
         check);
